@@ -626,7 +626,9 @@ func (p *Parser) parseCreateIndex(unique bool) (*ast.CreateIndexStatement, error
 	// Parse optional USING
 	if p.isType(models.TokenTypeUsing) {
 		p.advance() // Consume USING
-		if !p.isIdentifier() {
+		// The access method is a plain name (btree, hash, gin, ...); some of them are tokenized
+		// as generic keywords rather than identifiers.
+		if !p.isIdentifier() && !p.isType(models.TokenTypeKeyword) {
 			return nil, p.expectedError("index method")
 		}
 		stmt.Using = p.currentToken.Literal
